@@ -4,7 +4,7 @@
    ordering, exception class and warning by the correspondence check of this property. *)
 From Coq Require Import String ZArith List Bool.
 From XV Require Import Base.Label Base.LSet Base.ODict Base.Attr Base.Outcome Model.Hypergraph
-  Proofs.HgViews Proofs.HgInv Proofs.HgInvOps Proofs.HgStep Proofs.HgErrors Proofs.HgSpec Proofs.ShuffleProofs Proofs.DerivedProofs Proofs.HgSpecMore.
+  Proofs.HgViews Proofs.HgInv Proofs.HgInvOps Proofs.HgStep Proofs.HgErrors Proofs.HgSpec Proofs.ShuffleProofs Proofs.DerivedProofs Proofs.HgSpecMore Model.DiHypergraph Proofs.DiSpec Model.SimplicialComplex Proofs.ScInv Proofs.ScExact.
 Import ListNotations.
 Open Scope Z_scope.
 
@@ -140,6 +140,45 @@ Theorem C05_merge_duplicates_no_repeats : forall s, Inv s -> NoNone s ->
   Inv t /\ forall e f ms mf, get e (h_edge t) = Some ms -> get f (h_edge t) = Some mf -> seteq ms mf -> e = f.
 Proof. exact merge_first_no_repeats. Qed.
 Print Assumptions C05_merge_duplicates_no_repeats.
+
+(* ----- directed hypergraphs ----- *)
+(* add_edge((tail, head)) with an automatic id stores exactly the given tail and head under the next id and
+   leaves the tail and head of every other edge alone *)
+Theorem C05_directed_add_edge : forall tl hd a d, has_none tl = false -> has_none hd = false ->
+  let e := LInt (h_uid (ts d)) in
+  let r := d_add_edge tl hd None a d in
+  let d' := dst_of r in
+  snd (fst r) = Ok /\
+  exists T H, (forall x, In x T <-> In x tl) /\ (forall x, In x H <-> In x hd) /\ NoDup T /\ NoDup H /\
+    forall e', get e' (h_edge (ts d')) = (if lbl_eqb e' e then Some T else get e' (h_edge (ts d))) /\
+               get e' (h_edge (hs d')) = (if lbl_eqb e' e then Some H else get e' (h_edge (hs d))).
+Proof. exact d_add_edge_effect. Qed.
+Print Assumptions C05_directed_add_edge.
+
+Theorem C05_directed_remove_edge : forall e d, has e (h_edge (ts d)) = true ->
+  let r := d_remove_edge e d in
+  let d' := dst_of r in
+  snd (fst r) = Ok /\
+  forall e', get e' (h_edge (ts d')) = (if lbl_eqb e' e then None else get e' (h_edge (ts d))) /\
+             get e' (h_edge (hs d')) = (if lbl_eqb e' e then None else get e' (h_edge (hs d))).
+Proof. exact d_remove_edge_effect. Qed.
+Print Assumptions C05_directed_remove_edge.
+
+Theorem C05_directed_remove_missing_edge : forall e d, has e (h_edge (ts d)) = false ->
+  d_remove_edge e d = draise d IDNotFound.
+Proof. exact d_remove_edge_missing. Qed.
+Print Assumptions C05_directed_remove_missing_edge.
+
+(* ----- simplicial complexes ----- *)
+(* add_simplex of a new simplex (no None member, free id): afterwards the complex holds exactly what it held, the
+   simplex, and the sub-faces of the simplex with two or more nodes - nothing else - and keeps its invariant *)
+Theorem C05_add_simplex_exact : forall ms idx a hint s, SInv s ->
+  existsb is_none (mkset ms) = false -> mkset ms <> [] -> ~ HasS s (mkset ms) ->
+  (forall i, idx = Some i -> has i (h_edge s) = false) ->
+  let t := st_of (add_simplex ms idx a hint s) in
+  SInv t /\ forall x, HasS t x <-> HasS s x \/ seteq x (mkset ms) \/ exists g, seteq x g /\ Face g (mkset ms).
+Proof. exact add_simplex_exact. Qed.
+Print Assumptions C05_add_simplex_exact.
 
 Example C05_nonvacuous :
   let s := run [OAddEdgesFrom (EB1 [[LInt 1; LInt 2]; [LInt 3; LInt 4]; [LInt 1]]) []] hg_empty in
